@@ -571,6 +571,59 @@ def _counted_when_nonempty(prog, f, inc_bb, add_bb):
     return False
 
 
+def _u14_sites(prog, f, result, counter, depth):
+    """[(fn, bb, counted?)] for every place in f (or in a helper that is handed `&mut result`) that adds entries to `result`;
+    counted = an advance of `counter` (an assignment, or a helper handed `&mut counter`) on every path through that place"""
+    if result is None:
+        return []
+    incs = []
+    if counter is not None:
+        by_ref = f.locals[counter]['s'].startswith('&mut')
+        for (bb, si, kind, r) in f.defs().get(counter, []):
+            if bb not in f.reachable():
+                continue
+            if kind == 'assign' and not (isinstance(r, dict) and r.get('k') == 'use' and op_const(r['o']) is not None):
+                incs.append(bb)
+            elif kind == 'partial' and by_ref:
+                incs.append(bb)     # `*counter += ..` in a helper that got the counter by reference
+    adds, nested = [], []
+    for c in f.calls:
+        if c.bb not in f.reachable() or not c.args:
+            continue
+        roots = [core.access_root(f, op_local(a)) if op_local(a) is not None else None for a in c.args]
+        if c.name in ('extend', 'append', 'push', 'extend_from_slice') and roots[0] == result:
+            adds.append(c.bb)
+            continue
+        tg = [t for t in prog.resolve(c) if t in prog.fns and not prog.fns[t].is_coroutine]
+        if result in roots and tg and depth > 0 and not c.name.startswith('sort'):
+            # a helper that is handed the result vector (and possibly the counter) by reference
+            ri = roots.index(result)
+            ci = roots.index(counter) if counter in roots else None
+            sub = []
+            for t in tg:
+                g = prog.fns[t]
+                sub += _u14_sites(prog, g, ri + 1, (ci + 1) if ci is not None else None, depth - 1)
+            if sub:
+                if all(ok for (_, _, ok) in sub):
+                    nested.append((f, c.bb, True))
+                elif ci is None:
+                    adds.append(c.bb)       # the helper only adds; the caller has to count
+                else:
+                    nested += sub
+    for (bb, si, kind, r) in f.defs().get(result, []):
+        if kind in ('assign', 'call') and bb in f.reachable():
+            # a whole-vector assignment from a call result (not the initial `Vec::new()`)
+            if kind == 'call' and r.name not in ('new', 'with_capacity', 'default'):
+                adds.append(bb)
+            elif kind == 'assign' and r['k'] == 'use' and any(o.kind == 'call' and o.data.name not in ('new', 'with_capacity', 'default') for o in core.origins(f, r['o'])):
+                adds.append(bb)
+    out = list(nested)
+    for a in sorted(set(adds)):
+        out.append((f, a, any(f.dominates(a, i) or f.dominates(i, a) or _counted_when_nonempty(prog, f, i, a) for i in incs)))
+    out.sort(key=lambda x: (x[0].id, x[1]))
+    return out
+
+
 def u14(ctx, rid):
     """the cross-blob merge (sort by timestamp, cut after the first marker) runs whenever the listed entries come from more than
     one blob: the counter that enables it is advanced at every place that adds a blob's entries to the result - the active blob
@@ -602,25 +655,14 @@ def u14(ctx, rid):
         if counter is None:
             continue
         result = core.access_root(f, op_local(sorts[0].args[0])) if op_local(sorts[0].args[0]) is not None else None
-        incs = [bb for (bb, si, kind, r) in f.defs().get(counter, []) if kind == 'assign' and bb in f.reachable() and not (r['k'] == 'use' and op_const(r['o']) is not None)]
-        adds = []
-        for c in f.calls:
-            if c.bb in f.reachable() and c.name in ('extend', 'append', 'push', 'extend_from_slice') and c.args and op_local(c.args[0]) is not None and core.access_root(f, op_local(c.args[0])) == result:
-                adds.append(c.bb)
-        for (bb, si, kind, r) in f.defs().get(result, []) if result is not None else []:
-            if kind in ('assign', 'call') and bb in f.reachable():
-                # a whole-vector assignment from a call result (not the initial `Vec::new()`)
-                if kind == 'call' and r.name not in ('new', 'with_capacity', 'default'):
-                    adds.append(bb)
-                elif kind == 'assign' and r['k'] == 'use' and any(o.kind == 'call' and o.data.name not in ('new', 'with_capacity', 'default') for o in core.origins(f, r['o'])):
-                    adds.append(bb)
-        for a in sorted(set(adds)):
+        sites = _u14_sites(prog, f, result, counter, 2)
+        for idx, (g, a, good) in enumerate(sites):
             n += 1
-            key = 'every-source-counted|%s|%d' % (prog.fns[f.id].root, sorted(set(adds)).index(a))
-            if any(f.dominates(a, i) or f.dominates(i, a) or _counted_when_nonempty(prog, f, i, a) for i in incs):
-                ctx.ok(rid, key, f.where(a), 'the blob that contributes entries here is counted (`%s`)' % f.debug_name(counter))
+            key = 'every-source-counted|%s|%d' % (prog.fns[f.id].root, idx)
+            if good:
+                ctx.ok(rid, key, g.where(a), 'the blob that contributes entries here is counted (`%s`)' % f.debug_name(counter))
             else:
-                ctx.bad(rid, key, f.where(a), 'entries of a blob are added to the result here without advancing `%s`, the counter that enables the cross-blob merge: with that blob plus exactly one other the list is returned unmerged' % f.debug_name(counter))
+                ctx.bad(rid, key, g.where(a), 'entries of a blob are added to the result here without advancing `%s`, the counter that enables the cross-blob merge: with that blob plus exactly one other the list is returned unmerged' % f.debug_name(counter))
     if n < 2:
         raise core.AnchorLost('entry sources feeding a guarded cross-blob merge: %d' % n)
 
